@@ -93,6 +93,7 @@ BlockTab ==
                 D("RESP", <<"any">>, "", FALSE, "", "200") >>,
    \* a quoted path with a blank in it, stand-alone and as a URL with a method below
    blankP|-> << D("GET", <<"psp">>, "", FALSE, "", ""), D("RESP", <<"any">>, "", FALSE, "", "200") >>,
+   bad8P |-> << D("GET", <<"pbad8">>, "", FALSE, "", ""), D("RESP", <<"any">>, "", FALSE, "", "200") >>,              \* a path that is not UTF-8
    blankU|-> << D("URL", <<"psp">>, "", FALSE, "", ""), D("POST", <<>>, "", FALSE, "", ""), D("RESP", <<"any">>, "", FALSE, "", "200") >>,
    \* a response and a request whose bodies are given by child Body directives
    respB |-> << D("POST", <<"prb">>, "", FALSE, "", ""), D("Request", <<>>, "", FALSE, "", ""), D("Body", <<"any">>, "", FALSE, "", ""),
@@ -136,6 +137,17 @@ BlockTab ==
    \* by the Path of the shorter path only; the longer path's Path describes {y}
    pathX |-> << D("GET", <<"pux">>, "", FALSE, "", ""), D("Path", <<>>, "", FALSE, "pxor", ""), D("RESP", <<"any">>, "", FALSE, "", "200") >>,
    pathXY|-> << D("GET", <<"puxy">>, "", FALSE, "", ""), D("Path", <<>>, "", FALSE, "py", ""), D("RESP", <<"any">>, "", FALSE, "", "200") >>,
+   \* responses which share a code: three body formats; two of one format with different headers; one of the notation empty
+   respSame  |-> << D("GET", <<"prs">>, "", FALSE, "", ""), D("RESP", <<>>, "first", FALSE, "obj", "200"),
+                    D("RESP", <<>>, "", FALSE, "", "200"), D("Body", <<"regex">>, "", FALSE, "rx", ""), D("RESP", <<"any">>, "third", FALSE, "", "200") >>,
+   respSameJ |-> << D("POST", <<"prj">>, "", FALSE, "", ""), D("Request", <<"any">>, "", FALSE, "", ""),
+                    D("RESP", <<>>, "", FALSE, "obj", "200"), D("Headers", <<>>, "", FALSE, "hdr", ""),
+                    D("RESP", <<>>, "", FALSE, "obj2", "200"), D("Headers", <<>>, "", FALSE, "hdr2", ""),
+                    D("RESP", <<"empty">>, "", FALSE, "", "404") >>,
+   respSameE |-> << D("GET", <<"pre">>, "", FALSE, "", ""), D("RESP", <<>>, "", FALSE, "obj", "200"), D("RESP", <<"empty">>, "", FALSE, "", "200") >>,
+   \* two Tags directives under one method: the second one would never be looked up -- rejected
+   tags2 |-> << D("GET", <<"pt2">>, "", FALSE, "", ""), D("Tags", <<"@g1">>, "", FALSE, "", ""), D("Tags", <<"@g_2">>, "", FALSE, "", ""),
+                D("RESP", <<"any">>, "", FALSE, "", "200") >>,                                                              \* needs tag1, tag2
    sim   |-> << D("GET", <<"pax">>, "", FALSE, "", ""), D("RESP", <<"any">>, "", FALSE, "", "200") >>]          \* /a/{x}: similar to /a/{id}
 BlockIds == DOMAIN BlockTab
 
